@@ -7,6 +7,7 @@ import (
 	"os"
 	"os/exec"
 	"path/filepath"
+	"sort"
 	"strings"
 	"time"
 
@@ -100,7 +101,7 @@ func runC10(c *hx.Ctx) error {
 	var lines []string
 	for i := 0; i < nToy; i++ {
 		p := genToy(c.R)
-		cs := run.Case{Kind: "template", Main: "index.txt", Files: map[string]string{"index.txt": toyTemplate(p)}}
+		cs := run.Case{Kind: "template", Main: "index.txt", Files: map[string]string{"index.txt": toyTemplate(p)}, AllowGo: true}
 		concurrency(c, &cs)
 		if len(cs.Inputs) > 8 {
 			cs.Inputs, cs.Jitter = cs.Inputs[:8], cs.Jitter[:8]
@@ -109,8 +110,14 @@ func runC10(c *hx.Ctx) error {
 		var sched []string
 		left := make([]int, len(cs.Inputs))
 		total := 0
+		goes := 0
+		for _, in := range p {
+			if in.op == 'g' {
+				goes++
+			}
+		}
 		for j := range left {
-			left[j] = len(p) + 1
+			left[j] = len(p) + goes + 2 // the instructions, one delivery per started native, and slack
 			total += left[j]
 		}
 		for total > 0 {
@@ -142,7 +149,7 @@ func runC10(c *hx.Ctx) error {
 		r := run.Run(t.cs)
 		natives := 0
 		for _, in := range t.prog {
-			if in.op == 'n' {
+			if in.op == 'n' || in.op == 'g' {
 				natives++
 			}
 		}
@@ -164,13 +171,18 @@ func runC10(c *hx.Ctx) error {
 				if s == "" {
 					s = "-"
 				}
+				if o.Recorded == "" {
+					s += "|-"
+				} else {
+					s += "|" + o.Recorded
+				}
 				if o.Err != "" || o.Panic != "" {
 					s = "error:" + o.Err + o.Panic
 				}
 				parts = append(parts, s)
 			}
 			impl := "ok " + strings.Join(parts, ";")
-			if impl != model[i] {
+			if impl != sortRecords(model[i]) {
 				res.AddBreak(proto.Break{Kind: "correspondence", Name: "toy-machine-vs-concurrent-template-runs", Case: t.line,
 					Human: t.cs.Files["index.txt"], Impl: impl, Model: model[i]})
 			}
@@ -195,7 +207,7 @@ func runC10(c *hx.Ctx) error {
 				out.Kind, out.AllowGo = "program", true
 				out.Files = map[string]string{"main.go": progSource(sn)}
 			} else {
-				out.Kind, out.Main = "template", "index.html"
+				out.Kind, out.Main, out.AllowGo = "template", "index.html", true
 				out.Files = tplFiles(sn)
 			}
 			return out
@@ -281,6 +293,26 @@ func runC10(c *hx.Ctx) error {
 		}
 	}
 	return nil
+}
+
+// sortRecords sorts (as strings, like run.Outcome.Recorded) the recorded part of every run in a
+// model answer `ok shown|recorded;…`.
+func sortRecords(ans string) string {
+	body, ok := strings.CutPrefix(ans, "ok ")
+	if !ok {
+		return ans
+	}
+	runs := strings.Split(body, ";")
+	for i, r := range runs {
+		sh, rec, ok := strings.Cut(r, "|")
+		if !ok || rec == "-" {
+			continue
+		}
+		l := strings.Split(rec, ",")
+		sort.Strings(l)
+		runs[i] = sh + "|" + strings.Join(l, ",")
+	}
+	return "ok " + strings.Join(runs, ";")
 }
 
 // RaceStress builds props/c10/racestress with -race (CGO_ENABLED=1) against the same repository
